@@ -21,6 +21,7 @@ from irlib import AnalysisBroken, V
 MAX_STATES = 96
 MAX_DEPTH = 14
 MAX_HOUDINI = 60
+MAX_PEEL = 3
 
 
 class Obligation:
@@ -59,7 +60,10 @@ class Interp:
         self.notes = []
         self.call_hook = None     # f(interp, state, inst, callee_name, args) -> None | list[(state, ret)]
         self.access_hook = None   # f(interp, state, inst, ptr, size, kind)
+        self.store_hook = None    # f(interp, state, inst, ptr, value)
+        self.ghost_keys = ()      # ghost entries that must be loop-invariant
         self.functions_seen = set()
+        self.unknown_calls = {}   # external callee -> first call site (treated as unknown effects)
         self.loops_seen = 0
         self.explosions = 0
 
@@ -273,6 +277,8 @@ class Interp:
 
     def load(self, st, p, ty, inst):
         size = ty.get('size')
+        if ty.get('k') == 'int':
+            size = (ty['bits'] + 7) // 8       # i48 is stored in 6 bytes
         if size is None:
             return TOP
         self.check_access(st, p, size, inst, 'load')
@@ -285,10 +291,15 @@ class Interp:
             v = st.mem.get(key)
             if v is not None:
                 return v
-            # overlapping cell of another size -> unknown, do not memoise
-            for (o, off, sz) in st.mem:
-                if o == p.obj and off < p.off.c + size and p.off.c < off + sz:
-                    return self.top_of_type(st, ty, 'ld')
+            # overlapping cells of another size: constants are re-assembled
+            # (little endian); anything else is unknown, not memoised
+            ov = [(off, sz, v) for (o, off, sz), v in st.mem.items()
+                  if o == p.obj and off < p.off.c + size and p.off.c < off + sz]
+            if ov:
+                r = self.assemble_const(ov, p.off.c, size, ty)
+                if r is not None:
+                    return r
+                return self.top_of_type(st, ty, 'ld')
             v = self.initial_content(st, p, ty, inst)
             st.mem[key] = v
             return v
@@ -297,6 +308,25 @@ class Interp:
             if o == p.obj and sz == size and st.cons.entails_eq(p.off, off):
                 return v
         return self.initial_content_var(st, p, ty, inst)
+
+    def assemble_const(self, cells, off, size, ty):
+        if ty.get('k') != 'int':
+            return None
+        by = {}
+        for (coff, csz, v) in cells:
+            if not isinstance(v, IntVal):
+                return None
+            c = v.const()
+            if c is None:
+                return None
+            for b in range(csz):
+                by[coff + b] = (c >> (8 * b)) & 0xff
+        val = 0
+        for b in range(size):
+            if off + b not in by:
+                return None
+            val |= by[off + b] << (8 * b)
+        return mk_const(ty['bits'], val)
 
     def initial_content(self, st, p, ty, inst):
         o = st.objs.get(p.obj)
@@ -835,37 +865,38 @@ class Interp:
         la, lb = f
         p = pred[1:] if pred[0] in 'us' and pred not in ('eq', 'ne') else pred
         cons = st.cons
+        dq = st.known_diseq(la, lb)
         if p == 'eq':
-            if cons.entails_lt(la, lb) or cons.entails_lt(lb, la):
+            if dq or cons.entails_lt(la, lb) or cons.entails_lt(lb, la):
                 return False
             if cons.entails_eq(la, lb):
                 return True
             return None
         if p == 'ne':
-            if cons.entails_lt(la, lb) or cons.entails_lt(lb, la):
+            if dq or cons.entails_lt(la, lb) or cons.entails_lt(lb, la):
                 return True
             if cons.entails_eq(la, lb):
                 return False
             return None
         if p == 'lt':
-            if cons.entails_lt(la, lb):
+            if cons.entails_lt(la, lb) or (dq and cons.entails_le(la, lb)):
                 return True
             if cons.entails_le(lb, la):
                 return False
         elif p == 'le':
             if cons.entails_le(la, lb):
                 return True
-            if cons.entails_lt(lb, la):
+            if cons.entails_lt(lb, la) or (dq and cons.entails_le(lb, la)):
                 return False
         elif p == 'gt':
-            if cons.entails_lt(lb, la):
+            if cons.entails_lt(lb, la) or (dq and cons.entails_le(lb, la)):
                 return True
             if cons.entails_le(la, lb):
                 return False
         elif p == 'ge':
             if cons.entails_le(lb, la):
                 return True
-            if cons.entails_lt(la, lb):
+            if cons.entails_lt(la, lb) or (dq and cons.entails_le(la, lb)):
                 return False
         return None
 
@@ -908,8 +939,16 @@ class Interp:
         p = pred[1:] if pred not in ('eq', 'ne') else pred
         if not truth:
             p = {'eq': 'ne', 'ne': 'eq', 'lt': 'ge', 'le': 'gt', 'gt': 'le', 'ge': 'lt'}[p]
+        dq = st.known_diseq(la, lb)
         if p == 'eq':
+            if dq:
+                return []
             st.cons.add_eq(la, lb)
+        elif dq and p in ('le', 'ge'):
+            if p == 'le':
+                st.cons.add_lt(la, lb)
+            else:
+                st.cons.add_lt(lb, la)
         elif p == 'lt':
             st.cons.add_lt(la, lb)
         elif p == 'le':
@@ -924,10 +963,12 @@ class Interp:
             elif st.cons.entails_le(lb, la):
                 st.cons.add_lt(lb, la)
             else:
-                s2 = st.fork()
-                st.cons.add_lt(la, lb)
-                s2.cons.add_lt(lb, la)
-                return [s for s in (st, s2) if not self.infeasible(s, la, lb)]
+                # no order known: keep the disequality as a fact instead of
+                # forking into (<) and (>)
+                if st.cons.entails_eq(la, lb):
+                    return []
+                st.add_diseq(la, lb)
+                return [st]
         if self.infeasible(st, la, lb):
             return []
         return [st]
@@ -946,9 +987,14 @@ class Interp:
             return st.cons.unsat()
         c = cone(st.cons.items, syms)
         try:
-            return _fm_unsat(c)
+            if _fm_unsat(c):
+                return True
         except TooHard:
             return False
+        for d in st.diseq.values():
+            if any(sy in syms for sy in d.t) and st.cons.entails(d) and st.cons.entails(-d):
+                return True
+        return False
 
     # ------------------------------------------------------------------
     # function / region / loop execution
@@ -1105,6 +1151,8 @@ class Interp:
                 dflt = st.fork()
                 for case in t.d['cases']:
                     cv = case['v'] if signed else case['v'] % (1 << v.w)
+                    if st.known_diseq(form, cv):
+                        continue
                     s = st.fork()
                     s.cons.add_eq(form, cv)
                     if not self.infeasible(s, form, Lin(cv)):
@@ -1123,6 +1171,10 @@ class Interp:
                             s.cons.add_lt(cv, form)
                         nd.append(s)
                     dstates = nd
+                for s in dstates:
+                    for cv in vals:
+                        if not (s.cons.entails_lt(form, cv) or s.cons.entails_lt(cv, form)):
+                            s.add_diseq(form, cv)
                 out += [(s, fn.bmap[t.d['default']]) for s in dstates
                         if not self.infeasible(s, form, Lin(0))]
                 return out
@@ -1167,6 +1219,8 @@ class Interp:
         if op == 'store':
             v = self.val(st, i.ops[0], fn)
             p = self.val(st, i.ops[1], fn)
+            if self.store_hook is not None:
+                self.store_hook(self, st, i, p, v)
             self.store(st, p, v, i.d['store_size'], i)
             return [st]
         if op == 'alloca':
@@ -1336,6 +1390,7 @@ class Interp:
                 o.info['escaped'] = True
 
     def default_external(self, st, i, callee, args):
+        self.unknown_calls.setdefault(callee, i.where())
         for a in args:
             self.escape(st, a)
         self.havoc_escaped(st)
@@ -1356,6 +1411,11 @@ class Interp:
             for (bb, v) in ph.incoming:
                 if bb == frm.name:
                     inits[ph.id] = self.val(st, v, fn)
+        # bounded peeling: when the trip count is decided by constants the
+        # loop is executed without abstraction (at most MAX_PEEL iterations)
+        peeled = self.try_peel(fn, L, st, frm, rets)
+        if peeled is not None:
+            return peeled
         modified = set()      # memory cell keys written in the loop
         smashed = set()
         templ = None          # candidate invariants over placeholders ('$', i)
@@ -1458,7 +1518,14 @@ class Interp:
         for c in templ:
             H.cons.add(c.subst(ren))
         body_rets = []
+        head_ghost = {k: H.ghost.get(k) for k in self.ghost_keys}
         latches, exits = self.run_region(fn, L, [(H, frm)], body_rets)
+        for (T, lf) in latches:
+            for k in self.ghost_keys:
+                if T.ghost.get(k) != head_ghost[k]:
+                    self.oblige('ghost-loop-invariant', header.term, False,
+                                'analysis state %s changes across an iteration of the loop at %s (%r -> %r)'
+                                % (k, header.term.where(), head_ghost[k], T.ghost.get(k)), k)
         rets.extend(body_rets)
         if outer_written is not None:
             outer_written |= H.written
@@ -1467,6 +1534,49 @@ class Interp:
         for (s, r) in body_rets:
             s.written = outer_written
         return exits
+
+    def try_peel(self, fn, L, st, frm, rets):
+        header = L['header']
+        cur = [(st.fork(), frm)]
+        saved_written = st.written
+        all_exits = []
+        all_rets = []
+        self.recording += 1
+        ok = False
+        try:
+            for k in range(MAX_PEEL + 1):
+                nxt = []
+                for (s, f) in cur:
+                    self.eval_phis(fn, header, s, f)
+                    latches, exits = self.run_region(fn, L, [(s, f)], all_rets)
+                    nxt.extend(latches)
+                    all_exits.extend(exits)
+                if not nxt:
+                    ok = True
+                    break
+                if len(nxt) > 4:
+                    break
+                cur = nxt
+        except AnalysisBroken:
+            ok = False
+        finally:
+            self.recording -= 1
+        if not ok:
+            return None
+        # the loop terminates within MAX_PEEL iterations on every path: redo with recording on
+        cur = [(st, frm)]
+        out = []
+        for k in range(MAX_PEEL + 1):
+            nxt = []
+            for (s, f) in cur:
+                self.eval_phis(fn, header, s, f)
+                latches, exits = self.run_region(fn, L, [(s, f)], rets)
+                nxt.extend(latches)
+                out.extend(exits)
+            if not nxt:
+                break
+            cur = nxt
+        return out
 
     @staticmethod
     def what_key(what):
@@ -1709,7 +1819,18 @@ def ext_memcpy(interp, st, i, args):
     if not (nl.is_const() and nl.c == 0):
         interp.check_access(st, d, nl, i, 'memcpy-dst')
         interp.check_access(st, s, nl, i, 'memcpy-src')
+    copy = []
+    if nl.is_const() and nl.c <= 256 and isinstance(d, PtrVal) and isinstance(s, PtrVal) and \
+            d.obj is not None and s.obj is not None and d.off.is_const() and s.off.is_const():
+        # small constant-size copy between known locations: cells move along
+        for (o, off, sz), v in list(st.mem.items()):
+            if o == s.obj and off >= s.off.c and off + sz <= s.off.c + nl.c:
+                copy.append((off - s.off.c + d.off.c, sz, v))
     interp.mem_range_write(st, d, nl, i)
+    for (off, sz, v) in copy:
+        st.mem[(d.obj, off, sz)] = v
+        if st.written is not None:
+            st.written.add((d.obj, off, sz))
     return [(st, d)]
 
 
@@ -1731,6 +1852,18 @@ def ext_strlen(interp, st, i, args):
             # object known to hold a terminated string of given length
             return [(st, IntVal(r.w, o.info['cstr_len'] - p.off, None))]
     return [(st, r)]
+
+
+def ext_strmcrc8(interp, st, i, args):
+    """igris_strmcrc8(uint8_t *crc, char c): updates the byte *crc; the
+    numerical value is irrelevant to the bounds/shape clauses, so it is
+    summarised as 'reads and writes exactly one byte at crc' (the routine
+    itself is analysed under property C17)"""
+    p = args[0]
+    interp.check_access(st, p, 1, i, 'load')
+    v = st.fresh_int(8, False, 'crc')
+    interp.store(st, p, v, 1, i)
+    return [(st, None)]
 
 
 def ext_noreturn(interp, st, i, args):
@@ -1776,6 +1909,7 @@ PREFIX_EXTERNALS = [
     ('llvm.trap', ext_noreturn),
     ('llvm.stacksave', ext_pure), ('llvm.stackrestore', ext_pure),
     ('llvm.assume', ext_pure), ('llvm.expect', None),
-    ('llvm.va_', ext_pure),
+    ('llvm.va_', ext_pure), ('llvm.dbg.', ext_pure), ('llvm.lifetime.', ext_pure), ('llvm.donothing', ext_pure),
+    ('llvm.prefetch', ext_pure),
 ]
 PREFIX_EXTERNALS = [(p, f) for p, f in PREFIX_EXTERNALS if f is not None]
